@@ -5,8 +5,8 @@
 // Stub: common::has_compat (NFKC of a symbolic char is out of reach) = oracle HasCompat set, which gen.py
 // cross-checks against the real unicode-normalization crate on every code point assigned in 6.3.0.
 // Oracle: RFC 8264 section 8 recomputed from the raw 6.3.0 UCD files (and cross-checked with the IANA CSV).
-use crate::oracle;
-use crate::sup::*;
+use super::oracle;
+use super::sup::*;
 use precis_core::{DerivedPropertyValue, FreeformClass, IdentifierClass, StringClass};
 
 pub fn dpv_of(v: u8) -> DerivedPropertyValue {
@@ -53,7 +53,7 @@ pub fn free_chunk<const K: usize, S: Src>(s: &mut S) {
 /// Class pairing and entry points, for ANY table contents: every table predicate is replaced by an
 /// arbitrary (but fixed, i.e. deterministic) outcome chosen by the solver (stub set S-PRED).
 pub fn pairing<S: Src>(s: &mut S) {
-    crate::stubs::pred_init(s);
+    super::stubs::pred_init(s);
     let cp = s.u32();
     let id = IdentifierClass::default();
     let ff = FreeformClass::default();
@@ -75,10 +75,10 @@ pub fn pairing<S: Src>(s: &mut S) {
 /// The decision list is evaluated in the RFC order: with arbitrary predicate outcomes the result is the
 /// outcome of the FIRST predicate that holds.
 pub fn decision_order<S: Src>(s: &mut S) {
-    crate::stubs::pred_init(s);
+    super::stubs::pred_init(s);
     let cp = s.u32();
     let gid = IdentifierClass::default().get_value_from_codepoint(cp);
-    let p = crate::stubs::pred_snapshot();
+    let p = super::stubs::pred_snapshot();
     use DerivedPropertyValue::*;
     let exp = if let Some(v) = p.exception {
         v
@@ -121,7 +121,7 @@ pub fn decision_order<S: Src>(s: &mut S) {
 /// 8 letter_digit 9 other_letter_digit 10 space 11 symbol 12 punctuation   (7 = has_compat: not reachable, see S-COMPAT)
 pub fn pred_real<const P: usize, S: Src>(s: &mut S) {
     let b = if P == 12 { false } else { s.bool() };
-    crate::stubs::pred_set_all_false(b);
+    super::stubs::pred_set_all_false(b);
     let cp = s.u32();
     pv_note!(s, "predicate #{} at code point {:#x}", P, cp);
     let got = IdentifierClass::default().get_value_from_codepoint(cp);
